@@ -5,29 +5,70 @@
 package main
 
 import (
+	"errors"
+	"fmt"
 	"reflect"
+	"sort"
 	"time"
 
 	validation "github.com/go-ozzo/ozzo-validation/v4"
 
+	"github.com/ARM-software/golang-utils/utils/commonerrors"
 	"github.com/ARM-software/golang-utils/utils/config"
 )
 
 // required[type name] has bit i set when field i of that type (a leaf) is validation.Required.
 var required = map[string]uint64{}
 
-// own validates the leaf fields of *cfg that are marked required, the way the repository's tests do it
-// (validation.ValidateStruct with validation.Field(&cfg.X, validation.Required)).
+// errStyle[type name] decides HOW that type's Validate reports an empty required field:
+//
+//	0  ozzo: validation.ValidateStruct with validation.Field(&cfg.X, validation.Required) (the repository's tests)
+//	1  a plain error "tag: cannot be blank" (errors.New)
+//	2  a wrapped plain error (fmt.Errorf("%w …"))
+//	3  a commonerrors error of another kind (ErrUndefined) with the same text
+//	4  hand-made ozzo validation.Errors whose value for the field is itself a validation.Errors (nested map)
+//
+// In every style the text names the field; styles 1..3 report the failing field with the smallest tag, like the ozzo conversion.
+var errStyle = map[string]int{}
+
+const blankText = "cannot be blank"
+
+// own validates the leaf fields of *cfg that are marked required.
 func own(cfg any) error {
 	rv := reflect.ValueOf(cfg).Elem()
 	mask := required[rv.Type().Name()]
+	style := errStyle[rv.Type().Name()]
 	var rules []*validation.FieldRules
+	var failing []string
 	for i := 0; i < rv.NumField(); i++ {
 		if mask&(1<<uint(i)) != 0 && rv.Field(i).Kind() != reflect.Struct {
 			rules = append(rules, validation.Field(rv.Field(i).Addr().Interface(), validation.Required))
+			if rv.Field(i).IsZero() {
+				failing = append(failing, rv.Type().Field(i).Tag.Get("mapstructure"))
+			}
 		}
 	}
-	return validation.ValidateStruct(cfg, rules...)
+	if style == 0 {
+		return validation.ValidateStruct(cfg, rules...)
+	}
+	if len(failing) == 0 {
+		return nil
+	}
+	sort.Strings(failing)
+	switch style {
+	case 1:
+		return errors.New(failing[0] + ": " + blankText)
+	case 2:
+		return fmt.Errorf("%w (while validating %s)", errors.New(failing[0]+": "+blankText), rv.Type().Name())
+	case 3:
+		return commonerrors.Newf(commonerrors.ErrUndefined, "%s: %s", failing[0], blankText)
+	default:
+		es := validation.Errors{}
+		for _, f := range failing {
+			es[f] = validation.Errors{"value": errors.New(blankText)}
+		}
+		return es
+	}
 }
 
 const (
